@@ -133,7 +133,7 @@ func traceT1Write(args []string) error {
 	var fails []fail
 	events, glyphEvents := 0, 0
 	shapes := map[string]int{}
-	encs := []string{"none", "std-subset", "custom", "holes"}
+	encs := []string{"none", "std-subset", "custom", "holes", "std-plus"}
 	ints := func(b []byte) []int {
 		o := make([]int, len(b))
 		for i, c := range b {
@@ -142,10 +142,13 @@ func traceT1Write(args []string) error {
 		return o
 	}
 	for i := 0; i < n; i++ {
-		o := fontgen.Opts{NGlyphs: []int{2, 5, 12, 40}[i%4], Fractional: i%5 == 3, Encoding: encs[i%4], HardString: i%2 == 1,
+		o := fontgen.Opts{NGlyphs: []int{2, 5, 12, 40}[i%4], Fractional: i%5 == 3, Encoding: encs[i%5], HardString: i%2 == 1,
 			Zone: []string{"none", "utc", "unnamed"}[i%3], NonDefault: i%3 == 1, LongPaths: i%9 == 4}
 		if i == n-1 && n >= 30 {
 			o.NGlyphs = 300
+		}
+		if i == n-2 && n >= 20 {
+			o.NGlyphs, o.Huge, o.Fractional = 40, true, false
 		}
 		f := fontgen.Generate(rng, o)
 		fontgen.SegmentShapes(f, shapes)
